@@ -18,7 +18,7 @@ CLAIMED = {
    note="Trusted: Lean kernel; the `cryptography` primitives (both sides); harness/jweref.py as the independent implementation; JSON header parsing abstract in the model. The JSON serialization "
         "is covered by oracle and interoperability, not by a Lean model. ECDH-1PU drafts and C20P/XC20P not exercised. Observation: in dir / ECDH-ES the encrypted-key segment is ignored.",
    technique="Lean 4 proof (structural theorems + reduction to primitive unforgeability / MAC collision) + differential correspondence with an independent implementation + tamper oracle",
-   design="§4 C03"),
+   design="§5 C03"),
  "C20": dict(
    text="Lean 4 theorems (Props/C20.lean) over the regenerated error layer (Generated/Errors.lean: every OAuth2Error subclass with code / status / class-level description, every "
         "literal description passed when the library raises one, every site where a description is computed, the invalid_error_characters ranges, the default JSON headers — "
@@ -34,7 +34,7 @@ CLAIMED = {
         "ValueError('Invalid JSON Web Key Set') for an unknown kid and the ValueError / InvalidUnwrap / InvalidTag of JWE decryption are the documented outcomes (docstring, tests/jose). "
         "Not driven: flask_oauth1, Django integrations.",
    technique="Lean 4 proof over an AST-regenerated error table + error-path model (correspondence on constructors) + exhaustive-pool hostile-input oracle",
-   design="§4 C20"),
+   design="§5 C20"),
  "C18": dict(
    text="Lean 4 theorems. Metadata (Props/C18.lean over Model/Metadata.lean + Model/Url.lean, validators run in the REGISTRY_KEYS order regenerated from both classes on every "
         "run): as_/op_metadata_valid_iff_rules_partial — validate() accepts a document IFF every member satisfies its rule (required members present, endpoints https, issuer "
@@ -50,7 +50,7 @@ CLAIMED = {
         "brackets); jwks verdict abstract; in-memory registration endpoints (regworld.py); OIDC registration claims class (oidc/registration/claims.py) not modelled. Observation: an object "
         "given as grant_types / response_types is accepted by its keys; 0/1 accepted for boolean members.",
    technique="Lean 4 proof (per-member iff lifted over regenerated key lists; validated-metadata invariant over all histories) + differential correspondence + statement oracle",
-   design="§4 C18"),
+   design="§5 C18"),
  "C17": dict(
    text="Lean 4 theorems over the transition system Model/AsyncRefresh.lean (N coroutines, lock, token version, counters; scheduler picks any enabled step, the token "
         "endpoint's answers are the environment's choice, lock handed to any waiter), by an 11-clause invariant preserved by every step (step_preserves_inv) and induction "
@@ -62,7 +62,7 @@ CLAIMED = {
    note="Trusted: Lean kernel; coroutine-level atomicity of asyncio between awaits (the granularity of model actions); harness scheduler (asyncworld.py). Cannot exhibit: thread "
         "pre-emption, real network timing, lock hand-off orders other than anyio's FIFO on the real side (the model covers them). Hypothesis FreshTokenLive: the refreshed token is not itself expired.",
    technique="Lean 4 proof (inductive invariant of a transition system, all N and all schedules) + trace-inclusion correspondence over exhaustively enumerated real schedules + trace oracle",
-   design="§4 C17"),
+   design="§5 C17"),
  "C14": dict(
    text="Lean 4 theorems over Model/ClientState.lean (get/set/clear_state_data of FrameworkIntegration and StarletteIntegration, _clear_session_state, the authorize_redirect / "
         "authorize_access_token pairs; any number of sessions and providers): callback_proceeds_implies_begun_in_same_session_partial (for EVERY history of begin / callback / "
@@ -75,7 +75,7 @@ CLAIMED = {
    note="PARTIAL as labelled: the theorems carry cacheMode = false; the statement's 'with or without a shared cache' is false of the code (known finding C14-cache-foreign-session). "
         "Trusted: Lean kernel; harness-side sessions (dicts carried between requests), plain cache object, deterministic token generator; OAuth 1 apps share the same state functions and are not driven separately.",
    technique="Lean 4 proof (history invariant + step characterisation, negation witness for cache mode) + differential correspondence on histories over three frameworks + statement oracle",
-   design="§4 C14"),
+   design="§5 C14"),
  "C19": dict(
    text="Lean 4 theorems (Props/C19.lean): script level — orderOk_consume_only_after_store and orderOk_respond_last: for EVERY script obeying the order discipline and "
         "EVERY fault position k, the exchanged credential is consumed only after its replacement was stored, and nothing is written after the response was built; "
@@ -90,7 +90,7 @@ CLAIMED = {
         "reference integrators memserver.py / mem1.py (fault raised before the callback acts; failed commit rolls back); the name→kind classification of callbacks in "
         "Model/Fault.lean; implicit flow covered by trace table + oracle only; OIDC/hybrid id_token paths not faulted.",
    technique="Lean 4 proof (script order discipline for every fault position + regenerated traced scripts + masked state machine) + differential correspondence on faulted histories + statement oracle",
-   design="§4 C19"),
+   design="§5 C19"),
  "C12": dict(
    text="Lean 4 theorems over the OAuth 1.0 provider state machine Model/OAuth1Flow.lean (temporary credential request, user authorisation, token request, "
         "protected resource access, clock): exchangeCheck_ok_spec + exchange_ok_implies (token credentials only for a temporary credential in the store, bound to the "
@@ -104,7 +104,7 @@ CLAIMED = {
         "primitive is abstracted to 'signed with (client secret, token secret)' — base string and signing are C11's subject; PLAINTEXT without timestamp/nonce is exempt "
         "from the replay check exactly as the code does.",
    technique="Lean 4 proof (step characterisation + invariants by induction over all histories) + differential correspondence on histories + statement oracle",
-   design="§4 C12"),
+   design="§5 C12"),
  "C06": dict(
    text="Lean 4 theorems over the provider state machine Model/Provider.lean (authorize, redeem with PKCE, device authorize / user decision / poll, clock): "
         "redeemCheck_ok_spec + redeem_token_implies (a token is issued for a code only if the code is in the store — i.e. issued here and unconsumed —, belongs to the "
@@ -116,7 +116,7 @@ CLAIMED = {
    note="Trusted: Lean kernel; reference integrator (memserver.py on the repo's sqla_oauth2 mixins); client authentication inside histories is abstracted to "
         "'authenticates as X via method m' (C07); SHA-256 for S256 is native Lean, self-tested under C01.",
    technique="Lean 4 proof (step characterisation + invariant by induction over all histories) + differential correspondence on histories + statement oracle",
-   design="§4 C06"),
+   design="§5 C06"),
  "C09": dict(
    text="Lean 4 theorems over the same state machine (issue, refresh, revoke, introspect, access, clock): refresh_ok_implies_unrevoked_same_client (and the replaced "
         "credential is revoked in the same step), owner_revoke_is_permanent (after the owner's revocation request, for EVERY later operation sequence the token is refused by "
@@ -125,7 +125,7 @@ CLAIMED = {
         "revoke-then-use histories against the real provider built on the repo's own sqla_oauth2 functions; per-step outputs and final store compared; history oracle.",
    note="Trusted: Lean kernel; reference integrator; introspection permission = same client; ContinueIteration chaining with RFC 9068 endpoints is not modelled.",
    technique="Lean 4 proof (monotone revocation invariant over all histories) + differential correspondence on histories + statement oracle",
-   design="§4 C09"),
+   design="§5 C09"),
  "C07": dict(
    text="Lean 4 theorems over Model/ClientAuth.lean (extract_basic_authorization incl. lenient base64, UTF-8 check, first-colon split and unquote; "
         "authenticate_client_secret_basic / _post / authenticate_none with their raise-on-unknown-client rules; the ClientAuthentication.authenticate loop with "
@@ -137,7 +137,7 @@ CLAIMED = {
    note="Trusted: Lean kernel; reference integrator client semantics; the JWT assertion method and its jti store are exercised against an independent oracle, not modelled "
         "(failed assertion may record a jti: integrator callback invoked before the method check).",
    technique="Lean 4 proof over hand-written authentication model + differential correspondence + endpoint-level side-effect oracle",
-   design="§4 C07"),
+   design="§5 C07"),
  "C05": dict(
    text="Lean 4 theorems over Model/Authorize.lean (response_type normalisation, grant lookup over RESPONSE_TYPES regenerated from the grant classes, client "
         "identification per grant, validate_authorization_redirect_uri, response-type / scope / PKCE / nonce / openid / prompt checks in code order, "
@@ -150,7 +150,7 @@ CLAIMED = {
    note="Trusted: Lean kernel; reference integrator client semantics (exact URI membership, first URI default); URL rendering (urlparse/urlunparse) is exercised and "
         "canonicalised, not modelled; Flask/Django integrations are not driven; hostile characters that crash the error constructor belong to C20.",
    technique="Lean 4 proof over hand-written endpoint model + regenerated grant constants + differential correspondence + direct redirect oracle",
-   design="§4 C05"),
+   design="§5 C05"),
  "C13": dict(
    text="Lean 4 theorems over Model/IdToken.lean (IDToken / ImplicitIDToken / HybridIDToken.validate in code order, generate_id_token payload, create_half_hash): "
         "nonce_mismatch_rejected, nonce_missing_rejected, client_mismatch_rejected, issuer_mismatch_rejected, expired_rejected, c_hash_missing_rejected "
@@ -162,7 +162,7 @@ CLAIMED = {
    note="Trusted: Lean kernel; signature verification is C01's subject (jwt.decode exercised with the right / a wrong key); general acceptance of provider tokens is shown by "
         "correspondence + a kernel-checked instance, not by a universally quantified theorem; one known finding (code token / c_hash) listed in known_findings.json.",
    technique="Lean 4 proof (mismatch ⇒ rejection; binding ⇒ half-hash collision) + differential correspondence with the real provider and claims classes",
-   design="§4 C13"),
+   design="§5 C13"),
  "C16": dict(
    text="Lean 4 theorems over Model/Jwk.lean: int_b64_roundtrip (∀ n>0, via the Base64 round trip and beNat∘minBE = id), rsa_members_minimal_length "
         "(no leading zero octet, ∀ n), ec_members_full_length / ec_coord_roundtrip / ec_coord_decodes_to_full_length (fixed width, ∀ n < 256^len), "
@@ -174,7 +174,7 @@ CLAIMED = {
    note="Trusted: Lean kernel; PEM/DER codecs, key generation, RSA d-only reconstruction are cryptography primitives (exercised only); as_dict modelled for string members; "
         "OctKey.as_dict always carries k (observation, DESIGN §3.2).",
    technique="Lean 4 proof (encodings for all integers, export filter for all member lists) + regenerated field lists + differential correspondence + independent RFC 7518/7638 oracle",
-   design="§4 C16"),
+   design="§5 C16"),
  "C02": dict(
    text="Lean 4 theorems over Model/KeyPolicy.lean (crit check, missing/allowed/registered alg, key selection by kid for KeySet objects and dict key sets, "
         "family and curve check, check_key_op): verified_implies_policy (a key reaches signature verification only if alg is named, registered, allowed, "
@@ -187,7 +187,7 @@ CLAIMED = {
    note="Trusted: Lean kernel; PemNeedsMarker is an explicit hypothesis about the primitive; JWE alg/enc/zip lookup and callable keys are not modelled (C03 / not claimed); "
         "alg values of JSON type list/object are left to C20.",
    technique="Lean 4 proof over hand-written policy model + regenerated data layer (registry, unsafe prefixes/markers) + differential correspondence",
-   design="§4 C02"),
+   design="§5 C02"),
  "C01": dict(
    text="Lean 4 theorems over Model/Jws.lean (compact, flattened and general JSON deserialization, per-algorithm verify with the ECDSA length guard, "
         "allow-list and registry lookup; registry regenerated from JsonWebSignature.ALGORITHMS_REGISTRY on every run): accept_implies_prim_verified "
@@ -200,7 +200,7 @@ CLAIMED = {
    note="Trusted: Lean kernel; RSA/PSS/ECDSA/EdDSA and JSON header decoding are per-case oracle tables answered by cryptography / CPython json; "
         "JSON round trips (flattened/general) are covered by correspondence, not by a Lean round-trip theorem; base64 leniency (same octets, different text) is an accepted reading (DESIGN §3.2).",
    technique="Lean 4 proof (acceptance ⇒ primitive verification, reduction to MAC collision) + regenerated registry + differential correspondence + independent verifier",
-   design="§4 C01"),
+   design="§5 C01"),
  "C15": dict(
    text="Lean 4 theorems, for every octet string in every position: parse_qsl∘urlencode = id (Lemmas/Percent) and its corollaries "
         "add_params_preserves_existing, token_body_roundtrip, grant_uri_roundtrip, post/none_roundtrip, bearer_query_body_roundtrip; basic_roundtrip "
@@ -211,7 +211,7 @@ CLAIMED = {
    note="Trusted: Lean kernel; octet-level model (UTF-8; latin-1 for the Basic header); urlparse/urlunparse component splitting and the HTTP libraries are "
         "exercised, not modelled; str-level unquote(errors='replace') outside the model.",
    technique="Lean 4 proof (codec round trips for all inputs) + differential correspondence + three-client end-to-end oracle",
-   design="§4 C15"),
+   design="§5 C15"),
  "C11": dict(
    text="Lean 4 theorems over Model/OAuth1Sig.lean (escape, normalize_parameters with merge sort, construct_base_string, normalize_base_string_uri, "
         "signing key, HMAC signature): base_string_injective (base string determines upper-cased method, normalised URI, normalised parameters), "
@@ -222,7 +222,7 @@ CLAIMED = {
    note="Trusted: Lean kernel; RSA-SHA1 is a primitive (not modelled; for RSA the verification key is mutated instead of the unused shared secrets, RFC 5849 §3.4.3); "
         "header render/parse is exercised end to end, not modelled; urlparse components come from CPython. Two known findings (realm, double unescape) are listed in known_findings.json.",
    technique="Lean 4 proof (injectivity + reduction to MAC collision) + differential correspondence + independent RFC 5849 reference",
-   design="§4 C11"),
+   design="§5 C11"),
  "C10": dict(
    text="Lean 4 theorems served_iff (full iff, every header string / token table / type list / requirement list), error_kind_mapping and "
         "rejected_token_never_current over Model/Resource.lean, which mirrors ResourceProtector.validate_request, split(None,1), type lookup, "
@@ -232,7 +232,7 @@ CLAIMED = {
    note="Trusted: Lean kernel; ASCII lower(); theorem hypothesis AltsNonEmpty (each required alternative names a word); RFC 9068 half is "
         "correspondence + oracle only: signature primitives and jwt.decode are exercised, not modelled.",
    technique="Lean 4 proof (bearer decision iff) + differential correspondence + independent RFC 9068 oracle",
-   design="§4 C10"),
+   design="§5 C10"),
  "C04": dict(
    text="Lean 4 theorem validate_ok_iff_conforms: for every claim dictionary, option dictionary, now and leeway, JWTClaims.validate (Model/Claims.lean, "
         "mirroring rfc7519/claims.py branch by branch) raises nothing iff the claims satisfy the property statement transcribed as the structure Conforms; "
@@ -243,7 +243,7 @@ CLAIMED = {
         "named allowances (value options on exp/nbf/iat ignored, falsy expected values, aud only when present) are part of Conforms and listed in DESIGN §3.2. "
         "Derived claim classes (IDToken, JWTAccessTokenClaims) are covered under C13/C10, not here.",
    technique="Lean 4 proof (spec ⇔ model, all inputs) + differential correspondence + independent oracle",
-   design="§4 C04"),
+   design="§5 C04"),
  "C08": dict(
    text="Lean 4 theorems over the scope model (Model/Scope.lean): for every grant kind, token generator, supported set, client allowance, "
         "requested and original scope string, issued words ⊆ requested ∩ allowed ∩ supported (∩ original for refresh); unsupported ⇒ invalid_scope; "
@@ -252,7 +252,7 @@ CLAIMED = {
    note="Trusted: Lean kernel; python str.split modelled by Model/Text.splitWs (validated by the correspondence on whitespace variants); "
         "reference integrator client.get_allowed_scope = order-preserving filter; correspondence is differential testing bounded by the generator.",
    technique="Lean 4 proof over hand-written model + differential correspondence with the real provider",
-   design="§4 C08"),
+   design="§5 C08"),
 }
 
 def main():
